@@ -422,6 +422,11 @@ def run(chk: Check):
             chk.spec_failure("lost:earlier-connection", f"the peer ended the first connection ({case['prelude']}); read_message gave "
                              f"{res.get('prelude')}, expected ConnectionLost and a disconnected client",
                              dict(case={k: case[k] for k in ("chunks", "end", "calls", "frames", "sent", "tag", "prelude")}))
+        for mu in (res.get("mutated") or [])[:1]:
+            chk.spec_failure("faithful:changed-after-return",
+                             f"the message returned by call {mu[0]} no longer has the header / payload it was returned with once later "
+                             f"calls have run: header {mu[1]} -> {mu[2]}, payload {mu[3]} -> {mu[4]} (tag {case['tag']})",
+                             dict(case={k: case.get(k) for k in ("chunks", "end", "calls", "frames", "sent", "tag", "prelude")}, observed=outs))
         oracle(chk, case, outs)
         coq_cases.append(case_coq(case, outs, table))
     chk.cov["evaluations"] = reads
